@@ -1,3 +1,498 @@
 import Driver.Common
--- stub driver for C08 (replaced when the property's model is built)
-def main (args : List String) : IO UInt32 := Driver.main' (fun _ => "bad-op") (fun _ _ => "fail bad-op") args
+import GilVerif.Model.C08
+open Driver GilVerif.Model.C08
+
+/-! Model driver and Spec judge for C08.  Op vocabulary: see harness/C08/field.cpp and pixel.cpp.
+    Field values are numbers in hex; buffers are byte strings in hex (memory order) = one little-endian Nat. -/
+
+def hexDigitVal (c : UInt8) : Nat :=
+  if c ≤ 57 then (c - 48).toNat else ((c ||| 32) - 87).toNat
+
+/-- number written in hex, digits `[start, start+len)` of `b` -/
+def hexSlice (b : ByteArray) (start len : Nat) : Nat :=
+  (List.range len).foldl (fun acc i => acc * 16 + hexDigitVal (b.get! (start + i))) 0
+
+def hexNum (s : String) : Nat := let b := s.toUTF8; hexSlice b 0 b.size
+
+def hexChar (d : Nat) : Char := if d < 10 then Char.ofNat (48 + d) else Char.ofNat (87 + d)
+
+/-- `digits` hex digits of `v`, most significant first -/
+def numHex (v digits : Nat) : String :=
+  (List.range digits).foldl (fun s i => s.push (hexChar ((v >>> (4 * (digits - 1 - i))) % 16))) ""
+
+/-- bytes `[start, start+len)` (two hex digits each, memory order) of `b` as a little-endian number -/
+def memSlice (b : ByteArray) (start len : Nat) : Nat :=
+  (List.range len).foldl (fun acc i =>
+    let j := len - 1 - i
+    acc * 256 + (hexDigitVal (b.get! (start + 2 * j)) * 16 + hexDigitVal (b.get! (start + 2 * j + 1)))) 0
+
+def memOfHex (s : String) : Nat := let b := s.toUTF8; memSlice b 0 (b.size / 2)
+
+def memHexInto (acc : String) (M len : Nat) : String :=
+  (List.range len).foldl (fun s j => let byte := (M >>> (8 * j)) % 256; (s.push (hexChar (byte / 16))).push (hexChar (byte % 16))) acc
+
+def memHex (M len : Nat) : String := memHexInto "" M len
+
+def nats (ws : List String) : Option (List Nat) := ws.mapM String.toNat?
+
+def commaNats (s : String) : Option (List Nat) := (s.splitOn ",").mapM String.toNat?
+def showCommaNats (xs : List Nat) : String := ",".intercalate (xs.map toString)
+
+/-- configuration description `fb:w0,w1,..:m0,m1,..` -/
+structure Desc where
+  fb : Nat
+  widths : List Nat
+  map : List Nat        -- semantic index -> physical index
+def Desc.parse (s : String) : Option Desc :=
+  match s.splitOn ":" with
+  | [a, b, c] => do
+    let fb ← a.toNat?; let w ← commaNats b; let m ← commaNats c
+    if w.length = m.length ∧ m.all (· < w.length) then some ⟨fb, w, m⟩ else none
+  | _ => none
+def Desc.n (d : Desc) : Nat := d.widths.length
+def Desc.bs (d : Desc) : Nat := bitSize d.widths
+
+def parseArith (s : String) : Option Arith :=
+  match s with
+  | "inc" => some .inc | "pinc" => some .inc | "dec" => some .dec | "pdec" => some .dec
+  | "add" => some .add | "sub" => some .sub | "mul" => some .mul | "div" => some .div
+  | _ => none
+
+def listFn (xs : List Nat) : Nat → Nat := fun k => xs.getD k 0
+
+def splitBar (ws : List String) : List String × List String :=
+  let a := ws.takeWhile (· ≠ "|"); (a, (ws.dropWhile (· ≠ "|")).drop 1)
+
+def colonPair (s : String) : Option (Nat × Nat) :=
+  match s.splitOn ":" with
+  | [a, b] => do let x ← a.toNat?; let y ← b.toNat?; some (x, y)
+  | _ => none
+
+/-- counter overlay of `dsweep`: the low bytes of `c` replace bytes `[ptr, ptr+cb)` -/
+def overlay (M ptr cb c : Nat) : Nat := writeBytes M ptr cb c
+
+def getsPP (W f : Nat) (widths : List Nat) : List Nat := (List.range widths.length).map (fun k => ppGet W f widths k)
+def getsBA (fb M : Nat) (c : Cur) (widths : List Nat) : List Nat := (List.range widths.length).map (fun k => baGet fb M c widths k)
+
+def curOf (byte off : Nat) : Cur := ⟨byte, off⟩
+def showCur (c : Cur) : String := s!"{c.byte} {c.off}"
+
+/-! ### model -/
+
+def modelStaticOp (W F N : Nat) (op : String) (argS : String) (bf ot : Nat) : Option (Nat × Nat × Nat) :=
+  let arg : Int := argS.toInt?.getD 0
+  let old := getF W bf F N
+  match op with
+  | "set" => some (setF W bf F N (arg % 2 ^ carrierBits N).toNat, ot, 0)
+  | "setr" => some (setFromRefF W bf F N ot, ot, 0)
+  | "setc" => some (setFromRefF W bf F N ot, ot, 0)
+  | "setd" =>
+    let first := arg.toNat
+    let n := dataSize first N (W / 8)
+    some (setF W bf F N (getD W (ot % 2 ^ (8 * n)) first N), ot, 0)
+  | "swp" =>
+    let tmp := valueMask N old
+    let bf1 := setFromRefF W bf F N ot
+    some (bf1, setF W ot F N tmp, 0)
+  | "swv" =>
+    let x := valueMask N arg
+    let tmp := valueMask N old
+    some (setF W bf F N x, ot, tmp)
+  | "get" => some (bf, ot, 0)
+  | _ => match parseArith op with
+    | some a => some (setF W bf F N (arithStore N a old arg), ot, 0)
+    | none => none
+
+def modelDynOp (fb N M ptr first : Nat) (op argS : String) : Option (Nat × Nat) :=
+  let arg : Int := argS.toInt?.getD 0
+  let old := dGet fb M ptr first N
+  match op with
+  | "set" => some (dSet fb M ptr first N (arg % 2 ^ carrierBits N).toNat, 0)
+  | "setr" | "setc" => (colonPair argS).map (fun (p2, f2) => (dCopy fb M ptr first p2 f2 N, 0))
+  | "swp" => (colonPair argS).map (fun (p2, f2) => (dSwap fb M ptr first p2 f2 N, 0))
+  | "swv" => some (dSet fb M ptr first N (valueMask N arg), valueMask N old)
+  | "get" => some (M, 0)
+  | _ => match parseArith op with
+    | some a => some (dSet fb M ptr first N (arithStore N a old arg), 0)
+    | none => none
+
+def modelDop (W N len ptr first op arg buf : String) : String :=
+  match nats [W, N, len, ptr, first] with
+  | some [W, N, len, ptr, first] =>
+    let fb := W / 8
+    match modelDynOp fb N (memOfHex buf) ptr first op arg with
+    | some (M', aux) => s!"{memHex M' len} {dGet fb M' ptr first N} {aux}"
+    | none => "bad-op"
+  | _ => "bad-op"
+
+def model (line : String) : String :=
+  match words line with
+  | ["ssweep", W, F, N, c0, cnt, v0, vs] =>
+    match nats [W, F, N, c0, cnt, v0, vs] with
+    | some [W, F, N, c0, cnt, v0, vs] =>
+      let (a, b) := (List.range cnt).foldl (fun (a, b) i =>
+        let f := (c0 + i) % 2 ^ W
+        let v := (v0 + i * vs) % 2 ^ N
+        let f' := setF W f F N v
+        (a ++ numHex f' (W / 4), b ++ numHex (getF W f' F N) ((N + 3) / 4))) ("", "")
+      a ++ " | " ++ b
+    | _ => "bad-op"
+  | ["sop", W, F, N, op, arg, field, other] =>
+    match nats [W, F, N] with
+    | some [W, F, N] =>
+      match modelStaticOp W F N op arg (hexNum field) (hexNum other) with
+      | some (bf, ot, aux) => s!"{numHex bf (W / 4)} {numHex ot (W / 4)} {getF W bf F N} {aux}"
+      | none => "bad-op"
+    | _ => "bad-op"
+  | ["dsweep", W, N, len, ptr, first, c0, cnt, v0, vs, templ] =>
+    match nats [W, N, len, ptr, first, c0, cnt, v0, vs] with
+    | some [W, N, len, ptr, first, c0, cnt, v0, vs] =>
+      let fb := W / 8
+      let M0 := memOfHex templ
+      let cb := if len - ptr ≥ 2 then 2 else 1
+      let (a, b) := (List.range cnt).foldl (fun (a, b) i =>
+        let M := overlay M0 ptr cb (c0 + i)
+        let v := (v0 + i * vs) % 2 ^ N
+        let M' := dSet fb M ptr first N v
+        (memHexInto a M' len, b ++ numHex (dGet fb M' ptr first N) ((N + 3) / 4))) ("", "")
+      a ++ " | " ++ b
+    | _ => "bad-op"
+  | ["dop", W, N, len, ptr, first, op, arg, buf] => modelDop W N len ptr first op arg buf
+  | ["xdop", W, N, len, ptr, first, op, arg, buf] => modelDop W N len ptr first op arg buf
+  | ["bset", _, desc, len, byte, off, k, v, buf] =>
+    match Desc.parse desc, nats [len, byte, off, k, v] with
+    | some d, some [len, byte, off, k, v] =>
+      let c := curOf byte off
+      let M' := baSet d.fb (memOfHex buf) c d.widths k (v % 2 ^ carrierBits (width d.widths k))
+      s!"{memHex M' len} {showCommaNats (getsBA d.fb M' c d.widths)}"
+    | _, _ => "bad-op"
+  | ["bcopy", _, desc, len, ba, oa, bb, ob, buf] =>
+    match Desc.parse desc, nats [len, ba, oa, bb, ob] with
+    | some d, some [len, ba, oa, bb, ob] =>
+      let a := curOf ba oa; let b := curOf bb ob
+      let M' := baCopy d.fb (memOfHex buf) a b d.widths d.map
+      s!"{memHex M' len} {showCommaNats (getsBA d.fb M' a d.widths)}"
+    | _, _ => "bad-op"
+  | ["bswap", _, desc, len, ba, oa, bb, ob, buf] =>
+    match Desc.parse desc, nats [len, ba, oa, bb, ob] with
+    | some d, some [len, ba, oa, bb, ob] =>
+      let a := curOf ba oa; let b := curOf bb ob
+      let M' := baSwap d.fb (memOfHex buf) a b d.widths d.map
+      s!"{memHex M' len} {showCommaNats (getsBA d.fb M' a d.widths)} {showCommaNats (getsBA d.fb M' b d.widths)}"
+    | _, _ => "bad-op"
+  | ["pval", N, v] =>
+    match N.toNat?, v.toInt? with
+    | some N, some v =>
+      let viaInt : Int := (v + 2147483648) % 4294967296 - 2147483648
+      s!"{valueMask N v} {valueMask N viaInt} {valueMask N v}"
+    | _, _ => "bad-op"
+  | ["pset", _, desc, k, v, field] =>
+    match Desc.parse desc, nats [k, v] with
+    | some d, some [k, v] =>
+      let W := 8 * d.fb
+      let f' := ppSet W (hexNum field) d.widths k (v % 2 ^ carrierBits (width d.widths k))
+      s!"{numHex f' (2 * d.fb)} {showCommaNats (getsPP W f' d.widths)}"
+    | _, _ => "bad-op"
+  | ["parith", _, desc, k, op, arg, field] =>
+    match Desc.parse desc, k.toNat?, parseArith op, arg.toInt? with
+    | some d, some k, some a, some arg =>
+      let W := 8 * d.fb; let f := hexNum field
+      let f' := ppSet W f d.widths k (arithStore (width d.widths k) a (ppGet W f d.widths k) arg)
+      s!"{numHex f' (2 * d.fb)} {showCommaNats (getsPP W f' d.widths)}"
+    | _, _, _, _ => "bad-op"
+  | "pctor" :: _ :: desc :: vals =>
+    match Desc.parse desc, nats vals with
+    | some d, some vals =>
+      if vals.length ≠ d.n then "bad-op" else
+      let W := 8 * d.fb
+      -- the int arguments are converted to integer_t by operator=(integer_t)
+      let vs := fun k => (listFn vals k) % 2 ^ carrierBits (width d.widths k)
+      let f' := ppAssign W 0 d.widths vs (List.range d.n)
+      s!"{numHex f' (2 * d.fb)} {showCommaNats (getsPP W f' d.widths)}"
+    | _, _ => "bad-op"
+  | ["passign", dn, ddesc, sn, sdesc, srcfield, field] =>
+    match Desc.parse ddesc, Desc.parse sdesc with
+    | some d, some s =>
+      let W := 8 * d.fb; let Ws := 8 * s.fb; let src := hexNum srcfield
+      -- the same type on both sides: the implicit copy assignment copies the bit field
+      let f' := if dn = sn then src else ppAssignFrom W (hexNum field) d.widths d.map Ws src s.widths s.map
+      let eq := (d.map.zip s.map).all (fun (kd, ks) => ppGet W f' d.widths kd == ppGet Ws src s.widths ks)
+      s!"{numHex f' (2 * d.fb)} {showCommaNats (getsPP W f' d.widths)} {if eq then "eq" else "ne"}"
+    | _, _ => "bad-op"
+  | ["bget", _, desc, _, byte, off, buf] =>
+    match Desc.parse desc, nats [byte, off] with
+    | some d, some [byte, off] => showCommaNats (getsBA d.fb (memOfHex buf) (curOf byte off) d.widths)
+    | _, _ => "bad-op"
+  | ["barith", _, desc, len, byte, off, k, op, arg, buf] =>
+    match Desc.parse desc, nats [len, byte, off, k], parseArith op, arg.toInt? with
+    | some d, some [len, byte, off, k], some a, some arg =>
+      let c := curOf byte off; let M := memOfHex buf
+      let M' := baSet d.fb M c d.widths k (arithStore (width d.widths k) a (baGet d.fb M c d.widths k) arg)
+      s!"{memHex M' len} {showCommaNats (getsBA d.fb M' c d.widths)}"
+    | _, _, _, _ => "bad-op"
+  | ["bcpy", _, desc, len, sb, so, db, dof, count, buf] =>
+    match Desc.parse desc, nats [len, sb, so, db, dof, count] with
+    | some d, some [len, sb, so, db, dof, count] =>
+      memHex (baCopyRun d.fb (memOfHex buf) (curOf sb so) (curOf db dof) d.widths d.map count) len
+    | _, _ => "bad-op"
+  | ["iadv", _, desc, off, n] =>
+    match Desc.parse desc, off.toNat?, n.toInt? with
+    | some d, some off, some n =>
+      let bs := d.bs; let it : Cur := ⟨0, off⟩
+      let it2 := itAdvance bs it n; let it3 := itAdvance bs it2 (-n)
+      s!"{showCur it2} {showCur it3} {itDistance bs it it2} {itDistance bs it2 it} {showCur it2} {showCur it2}"
+    | _, _, _ => "bad-op"
+  | ["iinc", _, desc, off, k] =>
+    match Desc.parse desc, nats [off, k] with
+    | some d, some [off, k] =>
+      let bs := d.bs
+      let up := (List.range k).foldl (fun c _ => itInc bs c) (⟨0, off⟩ : Cur)
+      let dn := (List.range k).foldl (fun c _ => itDec bs c) up
+      s!"{showCur up} {showCur dn}"
+    | _, _ => "bad-op"
+  | "bassign" :: _ :: desc :: len :: byte :: off :: rest =>
+    match Desc.parse desc, nats [len, byte, off], nats rest.dropLast, rest.getLast? with
+    | some d, some [len, byte, off], some vals, some buf =>
+      if vals.length ≠ d.n then "bad-op" else
+      let c := curOf byte off
+      let M' := baAssign d.fb (memOfHex buf) c d.widths (listFn vals) d.map
+      let gets := getsBA d.fb M' c d.widths
+      s!"{memHex M' len} {showCommaNats gets} {if gets == vals then "eq" else "ne"}"
+    | _, _, _, _ => "bad-op"
+  | "bfill" :: _ :: desc :: len :: byte :: off :: count :: rest =>
+    match Desc.parse desc, nats [len, byte, off, count], nats rest.dropLast, rest.getLast? with
+    | some d, some [len, byte, off, count], some vals, some buf =>
+      if vals.length ≠ d.n then "bad-op" else
+      memHex (baWriteRun d.fb (memOfHex buf) (curOf byte off) d.widths d.map (List.replicate count (listFn vals))) len
+    | _, _, _, _ => "bad-op"
+  | _ => "bad-op"
+
+/-! ### judge: the Spec evaluated on the implementation's observation -/
+
+def fail (s : String) : String := "fail " ++ s
+
+def orElse (a : Option String) (b : Unit → Option String) : Option String :=
+  match a with | some e => some e | none => b ()
+
+def verdict (r : Option String) : String := match r with | some e => fail e | none => "ok"
+
+/-- several windows written with given values, everything else unchanged -/
+def writesSpec (M M' : Nat) (ws : List (Nat × Nat × Nat)) : Option String :=
+  -- read-back of every window
+  match ws.find? (fun (lo, num, v) => bitsAt M' lo num ≠ v) with
+  | some _ => some "read-back"
+  | none =>
+    -- frame: clear the windows in the XOR, the rest must be zero
+    let x := M ^^^ M'
+    let cleared := ws.foldl (fun x (lo, num, _) => x ^^^ (bitsAt x lo num <<< lo)) x
+    if cleared ≠ 0 then some "frame-bits" else none
+
+def chanWindows (pos : Nat) (widths : List Nat) (vals : List Nat) : List (Nat × Nat × Nat) :=
+  (List.range widths.length).map (fun k => (pos + sumK widths k, width widths k, vals.getD k 0))
+
+def arithExpected (N : Nat) (a : Arith) (old : Nat) (arg : Int) : Nat := (arithSpec a old arg % 2 ^ N).toNat
+
+def expectGets (obs : String) (expected : List Nat) : Option String :=
+  if commaNats obs = some expected then none else some "channel-read"
+
+def judge (op obs : String) : String :=
+  match words op, words obs with
+  | ["ssweep", W, F, N, c0, cnt, v0, vs], ows =>
+    match nats [W, F, N, c0, cnt, v0, vs], splitBar ows with
+    | some [W, F, N, c0, cnt, v0, vs], ([a], [b]) =>
+      let ab := a.toUTF8; let bb := b.toUTF8; let dw := W / 4; let dn := (N + 3) / 4
+      if ab.size ≠ cnt * dw ∨ bb.size ≠ cnt * dn then fail "shape" else
+      verdict ((List.range cnt).foldl (fun acc i => orElse acc (fun _ =>
+        let f := (c0 + i) % 2 ^ W; let v := (v0 + i * vs) % 2 ^ N
+        let f' := hexSlice ab (i * dw) dw
+        orElse (writeSpec f f' F N v) (fun _ => if hexSlice bb (i * dn) dn ≠ v then some "get" else none))) none)
+    | _, _ => fail "shape"
+  | ["sop", W, F, N, o, argS, field, other], [bfS, otS, getS, auxS] =>
+    match nats [W, F, N], nats [getS, auxS] with
+    | some [W, F, N], some [got, aux] =>
+      let arg : Int := argS.toInt?.getD 0
+      let bf := hexNum field; let ot := hexNum other; let bf' := hexNum bfS; let ot' := hexNum otS
+      let old := bitsAt bf F N
+      if bfS.length ≠ W / 4 ∨ otS.length ≠ W / 4 then fail "shape" else
+      if got ≠ bitsAt bf' F N then fail "get" else
+      let other_same := if ot' = ot then none else some "frame-other-field"
+      let r := match o with
+        | "set" => orElse (writeSpec bf bf' F N arg.toNat) (fun _ => other_same)
+        | "setr" | "setc" => orElse (writeSpec bf bf' F N (bitsAt ot F N)) (fun _ => other_same)
+        | "setd" => orElse (writeSpec bf bf' F N (bitsAt ot arg.toNat N)) (fun _ => other_same)
+        | "swp" => orElse (writeSpec bf bf' F N (bitsAt ot F N)) (fun _ => writeSpec ot ot' F N old)
+        | "swv" => orElse (writeSpec bf bf' F N arg.toNat) (fun _ => orElse other_same (fun _ => if aux ≠ old then some "swap-value" else none))
+        | "get" => orElse (if bf' = bf then none else some "frame-bits") (fun _ => other_same)
+        | _ => match parseArith o with
+          | some a => orElse (writeSpec bf bf' F N (arithExpected N a old arg)) (fun _ => other_same)
+          | none => some "bad-op"
+      verdict r
+    | _, _ => fail "shape"
+  | ["dsweep", W, N, len, ptr, first, c0, cnt, v0, vs, templ], ows =>
+    match nats [W, N, len, ptr, first, c0, cnt, v0, vs], splitBar ows with
+    | some [_, N, len, ptr, first, c0, cnt, v0, vs], ([a], [b]) =>
+      let ab := a.toUTF8; let bb := b.toUTF8; let dn := (N + 3) / 4
+      if ab.size ≠ cnt * 2 * len ∨ bb.size ≠ cnt * dn then fail "shape" else
+      let M0 := memOfHex templ
+      let cb := if len - ptr ≥ 2 then 2 else 1
+      let lo := 8 * ptr + first
+      verdict ((List.range cnt).foldl (fun acc i => orElse acc (fun _ =>
+        let M := overlay M0 ptr cb (c0 + i); let v := (v0 + i * vs) % 2 ^ N
+        let M' := memSlice ab (i * 2 * len) len
+        orElse (writeSpec M M' lo N v) (fun _ => if hexSlice bb (i * dn) dn ≠ v then some "get" else none))) none)
+    | _, _ => fail "shape"
+  | ["xdop", _, _, _, _, _, _, _, _], _ => "ok"      -- outside the property's quantifier: correspondence only
+  | ["dop", W, N, len, ptr, first, o, argS, buf], [bufS, getS, auxS] =>
+    match nats [W, N, len, ptr, first], nats [getS, auxS] with
+    | some [_, N, len, ptr, first], some [got, aux] =>
+      let arg : Int := argS.toInt?.getD 0
+      let M := memOfHex buf; let M' := memOfHex bufS
+      let lo := 8 * ptr + first
+      let old := bitsAt M lo N
+      if bufS.length ≠ 2 * len then fail "shape" else
+      if got ≠ bitsAt M' lo N then fail "get" else
+      let r := match o with
+        | "set" => writeSpec M M' lo N arg.toNat
+        | "setr" | "setc" => match colonPair argS with
+          | some (p2, f2) => writeSpec M M' lo N (bitsAt M (8 * p2 + f2) N)
+          | none => some "bad-op"
+        | "swp" => match colonPair argS with
+          | some (p2, f2) => writesSpec M M' [(lo, N, bitsAt M (8 * p2 + f2) N), (8 * p2 + f2, N, old)]
+          | none => some "bad-op"
+        | "swv" => orElse (writeSpec M M' lo N arg.toNat) (fun _ => if aux ≠ old then some "swap-value" else none)
+        | "get" => if M' = M then none else some "frame-bits"
+        | _ => match parseArith o with
+          | some a => writeSpec M M' lo N (arithExpected N a old arg)
+          | none => some "bad-op"
+      verdict r
+    | _, _ => fail "shape"
+  | ["pval", N, v], [a, b, c] =>
+    match N.toNat?, v.toInt?, nats [a, b, c] with
+    | some N, some v, some [a, b, c] =>
+      let e := (v % 2 ^ N).toNat
+      if a = e ∧ b = e ∧ c = e then "ok" else fail "value-mask"
+    | _, _, _ => fail "shape"
+  | ["pset", _, desc, k, v, field], [fS, gS] =>
+    match Desc.parse desc, nats [k, v] with
+    | some d, some [k, v] =>
+      let f := hexNum field; let f' := hexNum fS
+      if fS.length ≠ 2 * d.fb then fail "shape" else
+      verdict (orElse (writeSpec f f' (sumK d.widths k) (width d.widths k) v)
+        (fun _ => expectGets gS ((List.range d.n).map (fun j => bitsAt f' (sumK d.widths j) (width d.widths j)))))
+    | _, _ => fail "shape"
+  | ["parith", _, desc, k, o, arg, field], [fS, gS] =>
+    match Desc.parse desc, k.toNat?, parseArith o, arg.toInt? with
+    | some d, some k, some a, some arg =>
+      let f := hexNum field; let f' := hexNum fS
+      let lo := sumK d.widths k; let n := width d.widths k
+      if fS.length ≠ 2 * d.fb then fail "shape" else
+      verdict (orElse (writeSpec f f' lo n (arithExpected n a (bitsAt f lo n) arg))
+        (fun _ => expectGets gS ((List.range d.n).map (fun j => bitsAt f' (sumK d.widths j) (width d.widths j)))))
+    | _, _, _, _ => fail "shape"
+  | "pctor" :: _ :: desc :: vals, [fS, gS] =>
+    match Desc.parse desc, nats vals with
+    | some d, some vals =>
+      let f' := hexNum fS
+      if fS.length ≠ 2 * d.fb then fail "shape" else
+      verdict (orElse (writesSpec 0 f' (chanWindows 0 d.widths vals)) (fun _ => expectGets gS vals))
+    | _, _ => fail "shape"
+  | ["passign", dn, ddesc, sn, sdesc, srcfield, field], [fS, gS, eqS] =>
+    match Desc.parse ddesc, Desc.parse sdesc with
+    | some d, some s =>
+      let src := hexNum srcfield; let f := hexNum field; let f' := hexNum fS
+      -- colour by colour: semantic channel i of dst := semantic channel i of src
+      let expected := (List.range d.n).map (fun kd =>
+        match (d.map.zip s.map).find? (fun (a, _) => a = kd) with
+        | some (_, ks) => bitsAt src (sumK s.widths ks) (width s.widths ks)
+        | none => 0)
+      if fS.length ≠ 2 * d.fb then fail "shape" else
+      -- same type: plain value copy of the pixel object (its padding bits belong to the value); only the channels are judged
+      let frame := if dn = sn then (if (List.range d.n).all (fun k => bitsAt f' (sumK d.widths k) (width d.widths k) == expected.getD k 0) then none else some "read-back")
+                   else writesSpec f f' (chanWindows 0 d.widths expected)
+      verdict (orElse frame (fun _ => orElse (expectGets gS expected) (fun _ => if eqS = "eq" then none else some "assign-then-equal")))
+    | _, _ => fail "shape"
+  | ["bget", _, desc, _, byte, off, buf], [gS] =>
+    match Desc.parse desc, nats [byte, off] with
+    | some d, some [byte, off] =>
+      let M := memOfHex buf; let pos := 8 * byte + off
+      verdict (expectGets gS ((List.range d.n).map (fun j => bitsAt M (pos + sumK d.widths j) (width d.widths j))))
+    | _, _ => fail "shape"
+  | ["bset", _, desc, len, byte, off, k, v, buf], [bS, gS] =>
+    match Desc.parse desc, nats [len, byte, off, k, v] with
+    | some d, some [len, byte, off, k, v] =>
+      let M := memOfHex buf; let M' := memOfHex bS; let pos := 8 * byte + off
+      if bS.length ≠ 2 * len then fail "shape" else
+      verdict (orElse (writeSpec M M' (pos + sumK d.widths k) (width d.widths k) v)
+        (fun _ => expectGets gS ((List.range d.n).map (fun j => bitsAt M' (pos + sumK d.widths j) (width d.widths j)))))
+    | _, _ => fail "shape"
+  | ["barith", _, desc, len, byte, off, k, o, arg, buf], [bS, gS] =>
+    match Desc.parse desc, nats [len, byte, off, k], parseArith o, arg.toInt? with
+    | some d, some [len, byte, off, k], some a, some arg =>
+      let M := memOfHex buf; let M' := memOfHex bS; let pos := 8 * byte + off
+      let lo := pos + sumK d.widths k; let n := width d.widths k
+      if bS.length ≠ 2 * len then fail "shape" else
+      verdict (orElse (writeSpec M M' lo n (arithExpected n a (bitsAt M lo n) arg))
+        (fun _ => expectGets gS ((List.range d.n).map (fun j => bitsAt M' (pos + sumK d.widths j) (width d.widths j)))))
+    | _, _, _, _ => fail "shape"
+  | "bassign" :: _ :: desc :: len :: byte :: off :: rest, [bS, gS, eqS] =>
+    match Desc.parse desc, nats [len, byte, off], nats rest.dropLast, rest.getLast? with
+    | some d, some [len, byte, off], some vals, some buf =>
+      let M := memOfHex buf; let M' := memOfHex bS; let pos := 8 * byte + off
+      if bS.length ≠ 2 * len then fail "shape" else
+      verdict (orElse (writesSpec M M' (chanWindows pos d.widths vals))
+        (fun _ => orElse (expectGets gS vals) (fun _ => if eqS = "eq" then none else some "assign-then-equal")))
+    | _, _, _, _ => fail "shape"
+  | ["bcopy", _, desc, len, ba, oa, bb, ob, buf], [bS, gS] =>
+    match Desc.parse desc, nats [len, ba, oa, bb, ob] with
+    | some d, some [len, ba, oa, bb, ob] =>
+      let M := memOfHex buf; let M' := memOfHex bS; let pa := 8 * ba + oa; let pb := 8 * bb + ob
+      let vb := (List.range d.n).map (fun j => bitsAt M (pb + sumK d.widths j) (width d.widths j))
+      if bS.length ≠ 2 * len then fail "shape" else
+      verdict (orElse (writesSpec M M' (chanWindows pa d.widths vb)) (fun _ => expectGets gS vb))
+    | _, _ => fail "shape"
+  | ["bswap", _, desc, len, ba, oa, bb, ob, buf], [bS, gaS, gbS] =>
+    match Desc.parse desc, nats [len, ba, oa, bb, ob] with
+    | some d, some [len, ba, oa, bb, ob] =>
+      let M := memOfHex buf; let M' := memOfHex bS; let pa := 8 * ba + oa; let pb := 8 * bb + ob
+      let va := (List.range d.n).map (fun j => bitsAt M (pa + sumK d.widths j) (width d.widths j))
+      let vb := (List.range d.n).map (fun j => bitsAt M (pb + sumK d.widths j) (width d.widths j))
+      if bS.length ≠ 2 * len then fail "shape" else
+      verdict (orElse (writesSpec M M' (chanWindows pa d.widths vb ++ chanWindows pb d.widths va))
+        (fun _ => orElse (expectGets gaS vb) (fun _ => expectGets gbS va)))
+    | _, _ => fail "shape"
+  | "bfill" :: _ :: desc :: len :: byte :: off :: count :: rest, [bS] =>
+    match Desc.parse desc, nats [len, byte, off, count], nats rest.dropLast, rest.getLast? with
+    | some d, some [len, byte, off, count], some vals, some buf =>
+      let M := memOfHex buf; let M' := memOfHex bS; let pos := 8 * byte + off
+      if bS.length ≠ 2 * len then fail "shape" else
+      verdict (writesSpec M M' ((List.range count).flatMap (fun i => chanWindows (pos + i * d.bs) d.widths vals)))
+    | _, _, _, _ => fail "shape"
+  | ["bcpy", _, desc, len, sb, so, db, dof, count, buf], [bS] =>
+    match Desc.parse desc, nats [len, sb, so, db, dof, count] with
+    | some d, some [len, sb, so, db, dof, count] =>
+      let M := memOfHex buf; let M' := memOfHex bS; let ps := 8 * sb + so; let pd := 8 * db + dof
+      if bS.length ≠ 2 * len then fail "shape" else
+      verdict (writesSpec M M' ((List.range count).flatMap (fun i =>
+        chanWindows (pd + i * d.bs) d.widths ((List.range d.n).map (fun j => bitsAt M (ps + i * d.bs + sumK d.widths j) (width d.widths j))))))
+    | _, _ => fail "shape"
+  | ["iadv", _, desc, off, n], ows =>
+    match Desc.parse desc, off.toInt?, n.toInt?, ints ows with
+    | some d, some off, some n, some [b2, o2, b3, o3, d1, d2, bn, on, b4, o4] =>
+      let bs : Int := d.bs
+      if 8 * b2 + o2 ≠ off + n * bs ∨ o2 < 0 ∨ o2 ≥ 8 then fail "advance-position"
+      else if b3 ≠ 0 ∨ o3 ≠ off then fail "advance-roundtrip"
+      else if d1 ≠ n ∨ d2 ≠ -n then fail "distance"
+      else if bn ≠ b2 ∨ on ≠ o2 ∨ b4 ≠ b2 ∨ o4 ≠ o2 then fail "advance-position"
+      else "ok"
+    | _, _, _, _ => fail "shape"
+  | ["iinc", _, desc, off, k], ows =>
+    match Desc.parse desc, off.toInt?, k.toInt?, ints ows with
+    | some d, some off, some k, some [b1, o1, b2, o2] =>
+      let bs : Int := d.bs
+      if 8 * b1 + o1 ≠ off + k * bs ∨ o1 < 0 ∨ o1 ≥ 8 then fail "increment-position"
+      else if b2 ≠ 0 ∨ o2 ≠ off then fail "decrement-roundtrip"
+      else "ok"
+    | _, _, _, _ => fail "shape"
+  | _, _ => fail ("shape:" ++ (obs.take 40).toString)
+
+def main (args : List String) : IO UInt32 := Driver.main' model judge args
